@@ -108,17 +108,9 @@ pub fn print_js<'a>(
     let final_source_map = chain_source_maps(source_map, &original_source_map.source, config)
         .unwrap_or_else(|| String::from(source_map));
 
-    let final_code = if config.print_comments {
-        match &original_source_map.source_map_comment {
-            Some(comment) => {
-                debug!("Replacing original sourceMappingUrl comment: {comment}");
-                code.replace(comment.as_str(), "").into()
-            }
-            _ => code.into(),
-        }
-    } else {
-        code.into()
-    };
+    // the superseded sourceMappingURL comment is dropped from the comment store before printing
+    // (see transform_js); the printed text itself is never edited
+    let final_code: Cow<'a, str> = code.into();
 
     if final_source_map.is_empty() {
         debug!("No sourcemap available");
@@ -205,6 +197,14 @@ fn transform_js<R: Read>(
             // extract sourcemap before printing otherwise comments are consumed
             // and looks like it is not possible to read them after compiler.print() invocation
             let original_source_map = extract_source_map(file, compiler.comments(), file_reader);
+            if config.print_comments && original_source_map.source_map_comment.is_some() {
+                // the new map supersedes it: do not print it again
+                for mut trailing in compiler.comments().trailing.iter_mut() {
+                    trailing
+                        .value_mut()
+                        .retain(|comment| !comment.text.trim().starts_with(SOURCE_MAP_URL));
+                }
+            }
 
             compiler
                 .print(&program, print_args)
